@@ -202,6 +202,8 @@ class Executor:
             )
         elif not disable_dependencies:
             _check_pysqa_config_directory(pysqa_config_directory=pysqa_config_directory)
+            if refresh_rate < 0:
+                raise ValueError("The refresh_rate has to be a non-negative number.")
             return _ExecutorWithDependencies(
                 max_workers=max_workers,
                 backend=backend,
